@@ -339,3 +339,33 @@ func HarnessC14Int() {
 		zz.Reach("C14/int-accepted")
 	}
 }
+
+// HarnessC14Esc: \uXXXX with four arbitrary ASCII characters X, and \UX0000XXX with four
+// arbitrary ASCII characters: accepted exactly when the reference accepts (all hex digits,
+// value in range), with the same bytes. (Bodies of this length are beyond HarnessC14Str.)
+func HarnessC14Esc() {
+	long := zz.Bool()
+	sym := zz.Bytes(4)
+	for i := range sym {
+		zz.Assume(sym[i] < 0x80)
+	}
+	var data []byte
+	if long {
+		data = append([]byte(`"\U`), sym[0])
+		data = append(data, "0000"...)
+		data = append(data, sym[1:]...)
+	} else {
+		data = append([]byte(`"\u`), sym...)
+	}
+	data = append(data, '"')
+	tok, lval, _ := zzLexOne(data)
+	want, ok, rawHigh := zzRefDecode(data[1:], '"')
+	if rawHigh {
+		return
+	}
+	zz.Assert((tok == _STRING_LIT) == ok, "C14/unicode-escape-arbitrary-chars-accept-reject")
+	if tok == _STRING_LIT && ok {
+		zz.Assert(zz.EqBytes([]byte(lval.s.AsString()), want), "C14/unicode-escape-arbitrary-chars-bytes")
+	}
+	zz.Reach("C14/esc-template")
+}
